@@ -39,75 +39,22 @@ def run_cfg(ctx, p, cfg):
         r.require(deep_strip(co.arg(0)) == ("field", ("param", 1), once_f[0]) if once_f else False, "call_once-on-own-once", fn=f, site=co.at,
                   detail="receiver %s" % show(co.arg(0)))
         r.require(not f.in_loop(co.block) and all(f.dominates(co.block, rb) for rb in f.return_blocks()), "call_once-on-every-path", fn=f, detail="call_once is executed once per trigger() call")
-        clo = [x for x in walk(co.arg(1)) if x[0] == "closure"]
-        if len(clo) != 1:
-            raise ShapeUnrecognised("call_once argument is not a closure literal")
-        cf = p.fn(clo[0][1])
-        # returned value
-        rets = q.ret_assignments(f)
-        r.require(len(rets) == 1 and rets[0][1][0] == "agg" and rets[0][1][2] == "Ok", "single-ok-return", fn=f, detail=str([show(e, 4) for b, e in rets]))
-        # locate the result local: the operand in Ok(..)
-        res_local = None
-        for (dp, b, i, kind, payload) in f.defs(0):
-            if kind == "rv" and payload["k"] == "agg" and payload.get("variant") == "Ok":
-                op = payload["fields"][0]
-                pl = op.get("copy") or op.get("move")
-                if pl and not pl["p"]:
-                    res_local = pl["l"]
-                    # look through one copy
-                    ds = [d for d in f.defs(res_local) if not d[0]]
-                    if len(ds) == 1 and ds[0][3] == "rv" and ds[0][4]["k"] == "use" and (ds[0][4]["a"].get("copy") or ds[0][4]["a"].get("move")):
-                        src = ds[0][4]["a"].get("copy") or ds[0][4]["a"].get("move")
-                        if not src["p"]:
-                            res_local = src["l"]
-        if res_local is None:
-            raise ShapeUnrecognised("cannot identify the returned flag local")
-        inits = f.root_defs(res_local)
-        r.require(all(e == ("const", "bool", False) for b, e in inits) and inits, "starts-false", fn=f, detail="definitions of the returned flag in trigger(): %s" % [show(e) for b, e in inits])
-        # which capture slot holds &mut result
-        caps = clo[0][2]
-        slot = None
-        agg_stmt = None
-        for b, i, s in f.assigns():
-            if s["rv"]["k"] == "agg" and s["rv"].get("agg") == "closure" and s["rv"]["closure"] == cf.path:
-                agg_stmt = s
-        if agg_stmt is None:
-            raise ShapeUnrecognised("closure aggregate not found")
-        for k, op in enumerate(agg_stmt["rv"]["fields"]):
-            pl = op.get("copy") or op.get("move")
-            if not pl:
-                continue
-            for (dp, b, i, kind, payload) in f.defs(pl["l"]):
-                if kind == "rv" and payload["k"] == "ref" and payload["place"]["l"] == res_local and not payload["place"]["p"]:
-                    slot = (k, payload["mut"])
-        r.require(slot is not None and slot[1], "flag-captured-by-mut-ref", fn=f, detail="closure captures &mut of the returned flag (capture slot %s)" % (slot,))
-        # no other reference to the flag escapes
-        others = []
-        for b, i, s in f.assigns():
-            if s["rv"]["k"] == "ref" and s["rv"]["place"]["l"] == res_local and s["rv"]["mut"]:
-                others.append(b)
-        r.require(len(others) == 1, "single-mut-borrow", fn=f, detail="mutable borrows of the flag: %d" % len(others))
-        # inside the closure: writes through the captured reference
-        trues = []
-        bad = []
-        for b, i, s in cf.assigns():
-            if not s["lhs"]["p"] or s["lhs"]["p"][0] != "*":
-                continue
-            lv = cf.lvalue(s["lhs"])
-            tgt = deep_strip(lv)
-            if slot is not None and tgt == ("field", ("param", 1), str(slot[0])):
-                v = cf._rvalue(s["rv"], frozenset(), 20, b)
-                if v == ("const", "bool", True):
-                    trues.append((b, None))
-                elif v == ("const", "bool", False):
-                    pass
-                elif cmp_nf(v, True) is not None:
-                    # `flag = <comparison>`: true is stored exactly when the comparison holds (judged by O2)
-                    trues.append((b, v))
-                else:
-                    bad.append(show(v))
-        r.require(len(trues) >= 1 and not bad, "true-only-inside-once-closure", fn=cf, detail="assignments of true through the captured flag: %d; unrecognised assignments: %s" % (len(trues), bad))
-        ctx.extra["c17_true_sites"] = [(cf.path, b, v) for b, v in trues]
+        # what the call returns in each of the four situations (this call runs the Once or not; the file has reached min_size or
+        # not), read off the code with the closure and any helper followed (rules/oncewalk.py): Ok(true) exactly when both hold
+        from rules import oncewalk
+        ms = [x["name"] for x in adt["variants"][0]["fields"] if x["ty"] == "u64"]
+        try:
+            tab = oncewalk.evaluate(p, f, ms)
+        except oncewalk.Giveup as e:
+            raise ShapeUnrecognised("trigger(): %s" % e)
+        ctx.extra["c17_table"] = {"claimed=%s,len>=min=%s" % k: str(v[0]) for k, v in tab.items()}
+        for (claimed, big), (res, n_once, raw) in sorted(tab.items()):
+            want = claimed and big
+            r.require(res is want, "answer:%s,%s" % ("first-call" if claimed else "later-call", "len>=min_size" if big else "len<min_size"), fn=f,
+                      detail="returns Ok(%s)" % str(res).lower(),
+                      fail_detail="when this call %s the Once and the file %s min_size, trigger() returns %s; it must return Ok(%s)" % (
+                          "runs" if claimed else "does not run", "has reached" if big else "is below", ("Ok(%s)" % str(res).lower()) if res is not None else repr(raw), str(want).lower()))
+            r.require(n_once == 1, "one-once-per-call:%s,%s" % (claimed, big), fn=f, detail="call_once executed %d time(s) on this path" % n_once)
         # Once field is never re-created: aggregates of the ADT only in its constructor(s); no field write
         aggs = sorted({a[0].path for a in p.aggregates(ADT)})
         r.require(aggs == ["append::rolling_file::policy::compound::trigger::onstartup::OnStartUpTrigger::new"], "constructed-only-by-new",
@@ -119,35 +66,11 @@ def run_cfg(ctx, p, cfg):
         r.require(not cl, "not-clone", detail="OnStartUpTrigger does not implement Clone/Copy")
 
     with ctx.rule("O2", "threshold", cfg) as r:
-        f = p.fn(TRIG)
-        co = f.call1(CALL_ONCE)
-        clo = [x for x in walk(co.arg(1)) if x[0] == "closure"][0]
-        cf = p.fn(clo[1])
-        adt = p.adt(ADT)
-        ms = [x["name"] for x in adt["variants"][0]["fields"] if x["ty"] == "u64"]
-        sites = ctx.extra.get("c17_true_sites", [])
-        for (path, b, vexpr) in sites:
-            conds = cf.conditions(b)
-            # the condition under which true is stored: the single controlling branch of `flag = true`,
-            # or the comparison itself when the flag is assigned a comparison unconditionally
-            guards = [(si.discr, {si.label(v) for v, _ in al}) for sb, si, al in conds]
-            if vexpr is not None:
-                guards.append((vexpr, {True}))
-            r.require(len(guards) == 1, "single-guard", fn=cf, detail="the true-assignment has exactly one controlling condition (found %d)" % len(guards))
-            for discr, labs in guards:
-                if labs not in ({True}, {False}):
-                    r.fail("guard-shape", fn=cf, detail="unrecognised guard edges %s" % labs)
-                    continue
-                nf = cmp_nf(discr, True in labs)
-                ok = False
-                if nf:
-                    op, a, b2 = nf
-                    a, b2 = deep_strip(a), deep_strip(b2)
-                    is_min = lambda e: e[0] == "field" and e[2] in ms
-                    is_len = lambda e: e[0] == "call" and e[1] == rolling.LEN_EST
-                    ok = op == "Le" and is_min(a) and is_len(b2)
-                r.require(ok, "len-ge-min_size", fn=cf, detail="guard normal form: %s" % (show(("nf",) + nf, 5) if nf else show(discr, 5)))
-        r.require(bool(sites), "has-true-site", detail="true-assignment sites: %s" % sites)
+        # decided by the table of O1: the comparison between min_size and len_estimate() is followed as `len >= min_size`
+        # (either operand order, either polarity); a strict comparison, or any arithmetic on the two, is not followed
+        tab = ctx.extra.get("c17_table") or {}
+        r.require(tab.get("claimed=True,len>=min=True") == "True" and tab.get("claimed=True,len>=min=False") == "False", "len-ge-min_size",
+                  detail="first call: Ok(true) with len >= min_size, Ok(false) below it")
 
     with ctx.rule("O3", "first record, before the write", cfg) as r:
         f = p.fn(IS_PRE)
